@@ -7,6 +7,7 @@ pub mod mempipe;
 pub mod noisekit;
 pub mod sworld;
 pub mod nodes;
+pub mod nodex;
 pub mod mgrx;
 
 pub mod c01;
